@@ -1,4 +1,5 @@
 import Csverif.Gen.LockSites
+import Csverif.Props.C15
 /-
 C15, Part B — the generated lock-site table (Gen/LockSites.lean, regenerated from the repo under test by
 tools/gen_lock_sites.py on every run of the check) equals the audited table, in which every (entry point, function that
@@ -151,5 +152,29 @@ theorem f7_entry_points_locked :
        ("SmartCloudSync.smart_sync_oid", []), ("SmartCloudSync.smart_sync_path", []),
        ("SmartCloudSync.smart_delete_path", [])] := by
   decide +kernel
+
+/-! ## lock identity: where the source binds the lock attribute -/
+
+/-- THE AUDITED BINDING SITES: the state lock is created once, in the constructor of the state; nothing re-binds, deletes,
+    aliases or copies it (kinds bind / del / setattr / dict / alias / copy of tools/gen_lock_sites.py `lock_bindings`) -/
+def auditedBindings : List CS.LockId.BindingSite := [("bind", "SyncState.__init__", "self.lock")]
+
+/-- the generated list of binding sites is the audited one (breaks on ANY new assignment, deletion, setattr, `__dict__` write,
+    alias or copy of the lock attribute anywhere in the analysed sources; such a difference is never tolerated by the harness) -/
+theorem lock_bindings_audited : lockBindings = auditedBindings := rfl
+
+/-- LOCK-IDENTITY STABILITY of the source: the only binding site is the constructor's -/
+theorem lock_identity_stable : CS.LockId.ConstructorOnly lockBindings = true := by
+  decide
+
+/-- the serializability theorem instantiated with the source's binding table: for every program that abstracts the engine
+    (`RespectsBindings`) and keeps the discipline, every interleaving is equivalent to a serial one.  The lock-identity
+    hypothesis of `discipline_implies_serializable_stable_lock` is discharged HERE, by the table fact. -/
+theorem engine_serializable (p : CS.LockId.MProg) (σ : Loc → Val)
+    (habs : CS.LockId.RespectsBindings lockBindings p) (hd : Disciplined (CS.LockId.toProg p))
+    (sched : List Tid) (s' : CS.LockId.MState) (hr : CS.LockId.mrun (CS.LockId.minit p σ) sched = some s') :
+    ∃ sched' s'', CS.LockId.mrun (CS.LockId.minit p σ) sched' = some s'' ∧ CS.LockId.MSerial (CS.LockId.minit p σ) sched' ∧
+      s''.store = s'.store ∧ s''.obs = s'.obs :=
+  CS.LockId.discipline_implies_serializable_stable_lock lockBindings p σ lock_identity_stable habs hd sched s' hr
 
 end CS.Lock
